@@ -1,12 +1,12 @@
 SPECIFICATION Spec
 CONSTANTS
   MaskUpdated = TRUE
-  MaxOps = 4
-  MaxRep = 4
+  MaxOps = 3
+  MaxRep = 3
   MaxPool = 3
-  Sizes = {0, 1, 2}
-  MaxParts = 3
-  Fams = {"wf", "dup"}
+  Sizes = {1}
+  MaxParts = 1
+  Fams = {"twotok", "twover", "twosame", "tokzero", "overlap664", "range664", "diffn", "pno", "twomain"}
   Take = TRUE
   Linear = FALSE
   Export = TRUE
